@@ -744,3 +744,106 @@ def renumber(fn: ast.FunctionDef):
     for b in fn.body:
         visit_stmt(b)
     fn.end_lineno = counter[0]
+
+
+# ----------------------------------------------------------------------------- match statements
+class _MatchDesugar(ast.NodeTransformer):
+    """`match subject: case <simple pattern> [if guard]: ...` is an if / elif ladder.  Supported patterns: literal values,
+    None / True / False, alternatives, wildcard, captures, class patterns without sub-patterns, fixed-length sequences
+    of those.  Anything else is left alone (the rules then report the statement as not analysable)."""
+    counter = 0
+
+    def _test(self, pat, subj: ast.AST, binds: List[ast.stmt]) -> Optional[ast.AST]:
+        cp = lambda: copy.deepcopy(subj)    # noqa: E731
+        if isinstance(pat, ast.MatchValue):
+            return ast.Compare(left=cp(), ops=[ast.Eq()], comparators=[pat.value])
+        if isinstance(pat, ast.MatchSingleton):
+            return ast.Compare(left=cp(), ops=[ast.Is()], comparators=[ast.Constant(value=pat.value)])
+        if isinstance(pat, ast.MatchOr):
+            tests = [self._test(p, subj, binds) for p in pat.patterns]
+            if any(t is None for t in tests):
+                return None
+            return ast.BoolOp(op=ast.Or(), values=tests)
+        if isinstance(pat, ast.MatchAs):
+            t = ast.Constant(value=True) if pat.pattern is None else self._test(pat.pattern, subj, binds)
+            if t is None:
+                return None
+            if pat.name is not None:
+                binds.append(ast.Assign(targets=[ast.Name(id=pat.name, ctx=ast.Store())], value=cp()))
+            return t
+        if isinstance(pat, ast.MatchClass) and not pat.patterns and not pat.kwd_patterns:
+            return ast.Call(func=ast.Name(id="isinstance", ctx=ast.Load()), args=[cp(), pat.cls], keywords=[])
+        if isinstance(pat, ast.MatchSequence) and not any(isinstance(p, ast.MatchStar) for p in pat.patterns):
+            n = len(pat.patterns)
+            if isinstance(subj, (ast.Tuple, ast.List)):
+                if len(subj.elts) != n:
+                    return ast.Constant(value=False)
+                elems = list(subj.elts)
+                tests = []
+            else:
+                elems = [ast.Subscript(value=cp(), slice=ast.Constant(value=i), ctx=ast.Load()) for i in range(n)]
+                tests = [ast.Compare(left=ast.Call(func=ast.Name(id="len", ctx=ast.Load()), args=[cp()], keywords=[]), ops=[ast.Eq()], comparators=[ast.Constant(value=n)])]
+            for p, e in zip(pat.patterns, elems):
+                t = self._test(p, e, binds)
+                if t is None:
+                    return None
+                if not (isinstance(t, ast.Constant) and t.value is True):
+                    tests.append(t)
+            if not tests:
+                return ast.Constant(value=True)
+            return tests[0] if len(tests) == 1 else ast.BoolOp(op=ast.And(), values=tests)
+        return None
+
+    def visit_Match(self, node: ast.Match):
+        self.generic_visit(node)
+        pre: List[ast.stmt] = []
+        subj = node.subject
+        simple = _simple(subj) or (isinstance(subj, (ast.Tuple, ast.List)) and all(_simple(e) for e in subj.elts))
+        if not simple:
+            _MatchDesugar.counter += 1
+            nm = f"__match_subject{_MatchDesugar.counter}"
+            pre.append(ast.Assign(targets=[ast.Name(id=nm, ctx=ast.Store())], value=subj))
+            subj = ast.Name(id=nm, ctx=ast.Load())
+        arms = []
+        for case in node.cases:
+            binds: List[ast.stmt] = []
+            t = self._test(case.pattern, subj, binds)
+            if t is None:
+                return node
+            if case.guard is not None:
+                if binds:
+                    return node         # a guard that reads a capture: keep the statement as it is
+                t = case.guard if (isinstance(t, ast.Constant) and t.value is True) else ast.BoolOp(op=ast.And(), values=[t, case.guard])
+            arms.append((t, binds + list(case.body)))
+        top: Optional[ast.If] = None
+        cur: Optional[ast.If] = None
+        tail: List[ast.stmt] = []
+        for t, body in arms:
+            if isinstance(t, ast.Constant) and t.value is True:
+                tail = body
+                break
+            new = ast.If(test=t, body=body, orelse=[])
+            if top is None:
+                top = cur = new
+            else:
+                cur.orelse = [new]
+                cur = new
+        if top is None:
+            out = pre + tail
+        else:
+            cur.orelse = tail
+            out = pre + [top]
+        for o in out:
+            ast.copy_location(o, node)
+            ast.fix_missing_locations(o)
+        return out
+
+
+def desugar_match(trees: Dict[str, ast.Module]) -> int:
+    n = 0
+    for tree in trees.values():
+        if any(isinstance(x, ast.Match) for x in ast.walk(tree)):
+            _MatchDesugar().visit(tree)
+            ast.fix_missing_locations(tree)
+            n += 1
+    return n
